@@ -135,7 +135,10 @@ class Models17(CommonModels):
         path.assume(z3.Not(b))
         self.glog_add(path, 'awaited', (what, 'ok'))
         self.glog_add(pr, 'awaited', (what, 'fail'))
-        exc = ex.new_inst(pr, RuntimeError, args=VTuple([VStr('failure of ' + what)]))
+        # the failure is an exception of *some* class (Tor's refusal is a RuntimeError subclass, a malformed key is a ValueError, ...):
+        # a handler naming a narrower class than Exception may or may not catch it
+        exc = ex.new_inst(pr, Exception, args=VTuple([VStr('failure of ' + what)]))
+        pr.heap[('f', exc.oid, '__unknown_class__')] = VBool(True)
         pr.heap[('g', 'failure_of', what)] = exc
         return [(path, result), (pr, Raise(exc))]
 
